@@ -238,7 +238,7 @@ func extractC06() *lean {
 	l.def("stateVerifiers", "List String", leanStrList(verifiers), verifiers)
 
 	// state.Add: phases, what happens inside the write closure, tx options
-	var phases, writeCalls, writeConds, firstStmt, opts []string
+	var phases, writeCalls, writeConds, firstStmt, opts, rollback []string
 	for _, d := range sf.Decls {
 		fd, ok := d.(*ast.FuncDecl)
 		if !ok || fd.Name.Name != "Add" {
@@ -276,6 +276,15 @@ func extractC06() *lean {
 				for _, a := range c.Args[2:] {
 					if ac, ok := a.(*ast.CallExpr); ok {
 						opts = append(opts, c06Expr(ac.Fun))
+						if c06Expr(ac.Fun) == "stoabs.OnRollback" && len(ac.Args) == 1 {
+							if fl, ok := ac.Args[0].(*ast.FuncLit); ok {
+								for _, st := range fl.Body.List {
+									if es, ok := st.(*ast.ExprStmt); ok {
+										rollback = append(rollback, c06Expr(es.X))
+									}
+								}
+							}
+						}
 					}
 				}
 			}
@@ -287,6 +296,7 @@ func extractC06() *lean {
 	l.def("addWriteCalls", "List String", leanStrList(writeCalls), writeCalls)
 	l.def("addWriteConds", "List String", leanStrList(writeConds), writeConds)
 	l.def("addWriteOpts", "List String", leanStrList(opts), opts)
+	l.def("addRollbackStmts", "List String", leanStrList(rollback), rollback)
 
 	// dag.addSingle / dag.add conditions
 	var asc, adc []string
